@@ -134,13 +134,25 @@ static Verdict exec_C10(const Case &c) {
   for (auto &kv : c.kv)
     if (kv.first.size() > 6 && kv.first.compare(kv.first.size() - 6, 6, ".jkind") == 0) has_dst = true;
   std::string dst_dep;
+  bool pq_varied = false;
+  if (c.has("pq.kind")) {
+    // permutation objects handed to a factorisation are destinations too: identity / other in-range prior contents
+    pq_varied = true;
+    for (int pk = 0; pk < 2 && dst_dep.empty(); pk++) {
+      Case cv = c;
+      cv.set("pq.kind", pk);
+      Verdict vd = exec_op(cv);
+      if (vd.outhash != v1.outhash || vd.rawhash != v1.rawhash)
+        dst_dep = std::string("the result (factors, P, Q) depends on the prior contents of the supplied permutations (as generated vs. ") + (pk ? "other in-range values" : "identity") + ")";
+    }
+  }
   if (has_dst && !dst_is_input) {
     for (int jk = 0; jk < 2 && dst_dep.empty(); jk++) {
       Case cv = c;
       for (auto &kv : cv.kv)
         if (kv.first.size() > 6 && kv.first.compare(kv.first.size() - 6, 6, ".jkind") == 0) kv.second = std::to_string(jk);
       Verdict vd = exec_op(cv);
-      if (vd.outhash != v1.outhash)
+      if (vd.outhash != v1.outhash || vd.rawhash != v1.rawhash)
         dst_dep = std::string("the result depends on the prior contents of the supplied destination (junk vs. all-") + (jk ? "ones" : "zeros") + ")";
     }
   }
@@ -166,7 +178,7 @@ static Verdict exec_C10(const Case &c) {
   vf_wrap_enable(0);
   r.labels = v2.labels;
   r.outhash = v2.outhash;
-  if (has_dst && !dst_is_input) r.label("destination-contents-varied");
+  if ((has_dst && !dst_is_input) || pq_varied) r.label("destination-contents-varied");
   if (!dst_dep.empty()) {
     r.fail(dst_dep);
     return r;
@@ -183,7 +195,7 @@ static Verdict exec_C10(const Case &c) {
   }
   if (!v2.ok)
     r.fail("after the call history / with heap pattern " + std::to_string(fill) + ": " + v2.msg + " (correct in a fresh state)");
-  else if (v1.outhash != v2.outhash)
+  else if (v1.outhash != v2.outhash || v1.rawhash != v2.rawhash)
     r.fail("result differs between a fresh state and the state after the call history (heap pattern " + std::to_string(fill) + ")");
   bool recycled = wrap && n2 < n1;
   if (recycled) r.label("recycled-block-served");
@@ -221,7 +233,9 @@ static RegisterProp p_C10({"C10",
                            "products, echelon forms, PLUQ, transposes, eviction bursts, fini+init; in half of the cases followed by the same "
                            "operation with the same shape and parameters on other data) x heap pattern applied by the "
                            "allocation wrapper to every fresh block (and a different one to freed blocks); oracle = the operation's model "
-                           "oracle + identical output digest in a fresh state and after the history + zero padding of every owned "
+                           "oracle + identical output digest (canonical outputs and a raw digest of everything written, incl. full permutation "
+                           "arrays) in a fresh state, after the history and for other prior contents of supplied destinations (matrices: "
+                           "zeros / ones; permutations: identity / other in-range values) + zero padding of every owned "
                            "operand and result; non-trivial iff the operation's own rule holds and (a recycled block was served to it - "
                            "observed as fewer allocator requests than in the fresh state - or a non-zero heap pattern was active); "
                            "distinct by recipe hash. enumerated: transposition of every shape a x b and b x a with a in 1..140 (200 thorough), b in "
